@@ -83,12 +83,23 @@ func c03Observe(w *c03World, step string) {
 	vAssert("C03.edge-labels", vSortedEq(el, g.eLabels()))
 }
 
+// c03Slim: second elements of two-element calls use a reduced grid in the quick
+// tier (one label, one kind of defect); SLIM=0 explores the full product.
+func c03Slim(name string) bool {
+	return vParam("SLIM", 0) == 1 && (len(name) > 2 && (name[len(name)-2:] == "v2" || name[len(name)-2:] == "be"))
+}
+
 func c03Vertex(name string) (*gdbi.Vertex, bool) {
 	id := c03Pick(name+".id", c03Universe())
-	label := c03Pick(name+".label", c03Labels())
+	label := "A"
+	ndef := 2
+	if !c03Slim(name) {
+		label = c03Pick(name+".label", c03Labels())
+		ndef = 3
+	}
 	val := vFinite(name + ".val")
 	valid := true
-	switch vChoice(name+".defect", 3) {
+	switch vChoice(name+".defect", ndef) {
 	case 1:
 		label = ""
 		valid = false
@@ -103,7 +114,10 @@ func c03Edge(name string) (*gdbi.Edge, bool) {
 	id := c03Pick(name+".id", c03EdgeIDs())
 	from := c03Pick(name+".from", c03Universe())
 	to := c03Pick(name+".to", c03Universe())
-	label := c03Pick(name+".label", c03Labels())
+	label := "A"
+	if !c03Slim(name) {
+		label = c03Pick(name+".label", c03Labels())
+	}
 	valid := true
 	if vChoice(name+".defect", 2) == 1 {
 		to = ""
